@@ -266,3 +266,389 @@ def run_basic(chk, cid, prog, cfgname, groups, floor_scratch=None, floor_cursor=
     if floor_cursor is not None and nc < floor_cursor:
         raise AnalysisBroken('%s: %d strided cursor increments found, floor %d' % (cid, nc, floor_cursor))
     return ns, nc
+
+
+# ---------------------------------------------------------------- segment-size guard agreement on the scratch of the blocked update
+REPS = tuple(range(0, 10))
+
+
+def _eval_seg(cond, segid, v):
+    """three-valued truth of cond when segsze == v (None: does not depend on segsze only)"""
+    c = strip(cond)
+    if c.k == 'Unary' and c.a['op'] == '!':
+        r = _eval_seg(c.c[0], segid, v)
+        return None if r is None else (not r)
+    if c.k == 'Binary' and c.a['op'] in ('&&', '||'):
+        a, b = _eval_seg(c.c[0], segid, v), _eval_seg(c.c[1], segid, v)
+        if c.a['op'] == '&&':
+            if a is False or b is False:
+                return False
+            return True if (a is True and b is True) else None
+        if a is True or b is True:
+            return True
+        return False if (a is False and b is False) else None
+    if c.k == 'Binary' and c.a['op'] in ('==', '!=', '<', '<=', '>', '>='):
+        l, r = strip(c.c[0]), strip(c.c[1])
+        op = c.a['op']
+        if r.k == 'Ref' and r.a.get('id') == segid and const_value(l) is not None:
+            l, r = r, l
+            op = {'<': '>', '<=': '>=', '>': '<', '>=': '<=', '==': '==', '!=': '!='}[op]
+        if l.k == 'Ref' and l.a.get('id') == segid and const_value(r) is not None:
+            k = const_value(r)
+            return {'==': v == k, '!=': v != k, '<': v < k, '<=': v <= k, '>': v > k, '>=': v >= k}[op]
+    return None
+
+
+def _ends_loop_iteration(s):
+    s = s if s.k in ('Block', 'If') else strip(s)
+    if s.k == 'Block':
+        return bool(s.c) and _ends_loop_iteration(s.c[-1])
+    return s.k in ('Continue', 'Break', 'Return', 'Goto')
+
+
+def segsze_guard_rule(chk, cid, prog, fname, cfgname, scratch=('TriTmp', 'MatvecTmp')):
+    """In the 2-D blocked update the triangular solves of all panel columns are done first (results parked in TriTmp), then the block-row products,
+    then the results are scattered back.  Short segments (1..3) are handled by unrolled code that never touches TriTmp.  Every statement that touches
+    the parked vectors must therefore run for exactly the same set of segment sizes: the set of values of `segsze` under which it is reached
+    (from the if / else-if / continue tests on segsze that dominate it inside its panel-column loop) is computed for each and all must agree."""
+    f = prog.func(fname)
+    if f is None:
+        from ..run import AnalysisBroken
+        raise AnalysisBroken('%s not found' % fname)
+    chk.saw(unit=f.unit, func=f.unit + ':' + f.name)
+    segid = next((k for k, v in f.locals.items() if v.a.get('name') == 'segsze'), None)
+    if segid is None:
+        from ..run import AnalysisBroken
+        raise AnalysisBroken('%s: local segsze not found' % fname)
+    found = []      # (stmt, frozenset of reps)
+
+    def mentions(x):
+        return any(y.k == 'Ref' and y.a.get('name') in scratch for y in x.walk())
+
+    def assigns_seg(x):
+        return any(y.k == 'Assign' and strip(y.c[0]).k == 'Ref' and strip(y.c[0]).a.get('id') == segid for y in x.walk())
+
+    def walk(stmts, S, inloop):
+        S = set(S)
+        for st in stmts:
+            if st.k == 'If':
+                St = {v for v in S if _eval_seg(st.c[0], segid, v) is not False}
+                Sf = {v for v in S if _eval_seg(st.c[0], segid, v) is not True}
+                walk(st.c[1].c if st.c[1].k == 'Block' else [st.c[1]], St, inloop)
+                if len(st.c) > 2:
+                    walk(st.c[2].c if st.c[2].k == 'Block' else [st.c[2]], Sf, inloop)
+                t_ends = _ends_loop_iteration(st.c[1])
+                e_ends = len(st.c) > 2 and _ends_loop_iteration(st.c[2])
+                if t_ends and not e_ends:
+                    S = Sf
+                elif e_ends and not t_ends:
+                    S = St
+                continue
+            if st.k in ('For', 'While'):
+                body = st.c[3] if st.k == 'For' else st.c[1]
+                inner = body.c if body.k == 'Block' else [body]
+                if assigns_seg(body):
+                    walk(inner, set(REPS), True)
+                else:
+                    walk(inner, S, inloop)
+                continue
+            if st.k == 'Block':
+                walk(st.c, S, inloop)
+                continue
+            if assigns_seg(st):
+                S = set(REPS)
+                continue
+            s2 = strip(st)
+            if s2.k == 'Assign' and strip(s2.c[0]).k == 'Ref' and strip(s2.c[0]).a.get('name') in scratch:
+                continue        # re-pointing the scratch pointer itself (TriTmp = tempv; MatvecTmp = &TriTmp[maxsuper]) touches no element
+            if inloop and mentions(st):
+                found.append((st, frozenset(S)))
+    walk(f.body.c, set(REPS), False)
+    # group by the 2-D branch: statements that mention TriTmp/MatvecTmp and sit in loops that (re)compute segsze
+    sets = {}
+    for st, S in found:
+        sets.setdefault(S, []).append(st)
+    n = len(found)
+    inst = '%s:scratch-touched-for-one-set-of-segment-sizes' % fname
+    if n < 6:
+        from ..run import AnalysisBroken
+        raise AnalysisBroken('%s: only %d statements touching %s found under segsze tests' % (fname, n, '/'.join(scratch)))
+    if len(sets) == 1:
+        S = next(iter(sets))
+        chk.ok(cid, inst, sample='%d statements, all reached for segsze in %s' % (n, _fmt(S)))
+    else:
+        # the minority set is the suspect
+        order = sorted(sets.items(), key=lambda kv: (len(kv[1]), kv[1][0].line))
+        bad = order[0]
+        major = order[-1]
+        chk.violate(cid, inst, loc(f, bad[1][0]), fname,
+                    'the parked triangular-solve vectors are filled, multiplied and scattered back under different segment-size tests: the statement at line %d '
+                    'runs for segsze in %s, the other %d for segsze in %s - a segment of a size in the difference is overwritten with (or contributes) '
+                    'a vector that was never computed' % (bad[1][0].line, _fmt(bad[0]), len(major[1]), _fmt(major[0])), cfgname=cfgname)
+    return 1
+
+
+def _fmt(S):
+    S = sorted(S)
+    if not S:
+        return '{}'
+    if S[-1] == REPS[-1]:
+        lo = S[-1]
+        while lo - 1 in S:
+            lo -= 1
+        rest = [v for v in S if v < lo]
+        return '{%s}' % ', '.join([str(v) for v in rest] + ['>= %d' % lo])
+    return '{%s}' % ', '.join(map(str, S))
+
+
+# ---------------------------------------------------------------- layout of the tempv scratch of the 2-D update
+def _single_def(f, vid):
+    ds = []
+    for x in f.body.walk():
+        if x.k == 'Var' and x.a.get('id') == vid and x.c:
+            ds.append(x.c[0])
+        elif x.k == 'Assign' and strip(x.c[0]).k == 'Ref' and strip(x.c[0]).a.get('id') == vid:
+            ds.append(x.c[1] if x.a['op'] == '=' else None)
+    return ds[0] if len(ds) == 1 else None
+
+
+def ienv_value(f, e, depth=0):
+    """symbolic value of an int expression in terms of the tuning parameters sp_ienv(k):  ('ienv', k) | ('max', frozenset) | ('sum', tuple) | None"""
+    if e is None or depth > 6:
+        return None
+    e = strip(e)
+    if e.k == 'Call' and callee_name(e) == 'sp_ienv' and len(e.c) == 2 and const_value(e.c[1]) is not None:
+        return ('ienv', const_value(e.c[1]))
+    if e.k == 'Ref' and e.a.get('id'):
+        return ienv_value(f, _single_def(f, e.a['id']), depth + 1)
+    if e.k == 'Cond':
+        c = strip(e.c[0])
+        if c.k == 'Binary' and c.a['op'] in ('>', '>=', '<', '<='):
+            a, b = ienv_value(f, c.c[0], depth + 1), ienv_value(f, c.c[1], depth + 1)
+            x, y = ienv_value(f, e.c[1], depth + 1), ienv_value(f, e.c[2], depth + 1)
+            if None not in (a, b, x, y) and {a, b} == {x, y}:
+                big = (c.a['op'] in ('>', '>=')) == (x == a)
+                return ('max' if big else 'min', frozenset((a, b)))
+        return None
+    if e.k == 'Binary' and e.a['op'] == '+':
+        a, b = ienv_value(f, e.c[0], depth + 1), ienv_value(f, e.c[1], depth + 1)
+        if a is not None and b is not None:
+            return ('sum', tuple(sorted((a, b), key=repr)))
+    return None
+
+
+MAXSUPER = ('max', frozenset((('ienv', 3), ('ienv', 7))))
+ROWBLK = ('ienv', 4)
+LDATMP = ('sum', tuple(sorted((MAXSUPER, ROWBLK), key=repr)))
+
+
+def tempv_layout_rule(chk, cid, prog, p, cfgname):
+    """tempv holds, per panel column, [ maxsuper entries for the triangular solve | rowblk entries for one block-row product ] with
+    maxsuper = max(sp_ienv(3), sp_ienv(7)) (no supernode is wider: ?column_dfs caps at sp_ienv(3), the ILU variant at sp_ienv(7)) and rowblk = sp_ienv(4).
+    The routine that sizes the array (?LUWorkInit), the one that clears it (?SetRWork) and the one that uses it (?panel_bmod) must agree on that layout:
+    column stride maxsuper + rowblk, product vector at offset maxsuper, at most rowblk rows per product."""
+    n = 0
+    f = prog.func(p + 'panel_bmod')
+    if f is None:
+        from ..run import AnalysisBroken
+        raise AnalysisBroken('%spanel_bmod not found' % p)
+    chk.saw(unit=f.unit, func=f.unit + ':' + f.name)
+
+    def V(key, node, what, g=f):
+        chk.violate(cid, '%s:%s' % (g.name, key), loc(g, node), g.name, what, cfgname=cfgname)
+    # a. MatvecTmp = &TriTmp[maxsuper]
+    n += 1
+    mv = [x for x in f.body.walk() if x.k == 'Assign' and x.a['op'] == '=' and strip(x.c[0]).k == 'Ref' and strip(x.c[0]).a.get('name') == 'MatvecTmp']
+    ok = False
+    for x in mv:
+        r = strip(x.c[1])
+        off = None
+        if r.k == 'Unary' and r.a['op'] == '&' and strip(r.c[0]).k == 'Index' and strip(strip(r.c[0]).c[0]).a.get('name') == 'TriTmp':
+            off = strip(r.c[0]).c[1]
+        elif r.k == 'Binary' and r.a['op'] == '+' and strip(r.c[0]).a.get('name') == 'TriTmp':
+            off = r.c[1]
+        ok = off is not None and ienv_value(f, off) == MAXSUPER
+        if not ok:
+            V('product-vector-offset', x, 'the block-row product vector must start max(sp_ienv(3), sp_ienv(7)) entries behind the triangular-solve vector of its column '
+              '(a segment can be that long); it is placed at offset `%s`, so a long segment and its product overlap' % (pretty(off)[:30] if off is not None else '?'))
+    if ok and len(mv) == 1:
+        chk.ok(cid, '%s:product-vector-offset' % f.name, sample=pretty(mv[0])[:60])
+    elif not mv:
+        V('product-vector-offset', f.body, 'MatvecTmp is never bound')
+    # b. column stride
+    n += 1
+    lda = next((k for k, v in f.locals.items() if v.a.get('name') == 'ldaTmp'), None)
+    okb = lda is not None and ienv_value(f, _single_def(f, lda)) == LDATMP
+    incs = [x for x in f.body.walk() if x.k == 'Assign' and x.a['op'] == '+=' and strip(x.c[0]).k == 'Ref' and strip(x.c[0]).a.get('name') == 'TriTmp']
+    okc = len(incs) >= 3 and all(strip(x.c[1]).k == 'Ref' and strip(x.c[1]).a.get('id') == lda for x in incs)
+    if okb and okc:
+        chk.ok(cid, '%s:column-stride' % f.name, sample='ldaTmp = maxsuper + rowblk, %d sweeps advance TriTmp by it' % len(incs))
+    else:
+        V('column-stride', incs[0] if incs else f.body, 'each panel column owns maxsuper + rowblk entries of tempv: ldaTmp must be max(sp_ienv(3), sp_ienv(7)) + sp_ienv(4) and every '
+          'sweep over the panel must advance TriTmp by ldaTmp')
+    # c. rows per product
+    n += 1
+    bn = next((k for k, v in f.locals.items() if v.a.get('name') == 'block_nrow'), None)
+    d = strip(_single_def(f, bn)) if bn and _single_def(f, bn) is not None else None
+    okd = False
+    if d is not None and d.k == 'Cond':
+        vals = [ienv_value(f, d.c[1]), ienv_value(f, d.c[2])]
+        c = strip(d.c[0])
+        okd = ROWBLK in vals and c.k == 'Binary' and c.a['op'] in ('<', '<=', '>', '>=')
+        # it must be a minimum: the branch taken when rowblk is the smaller one yields rowblk
+        if okd:
+            l, r = ienv_value(f, c.c[0]), ienv_value(f, c.c[1])
+            lt = c.a['op'] in ('<', '<=')
+            first_is_rowblk = vals[0] == ROWBLK
+            okd = (l == ROWBLK and lt == first_is_rowblk) or (r == ROWBLK and lt != first_is_rowblk)
+    if okd:
+        chk.ok(cid, '%s:rows-per-product' % f.name, sample=pretty(d)[:70])
+    else:
+        V('rows-per-product', f.body, 'block_nrow must be min(rowblk, rows left) with rowblk = sp_ienv(4): only rowblk entries are reserved for the product vector')
+    # d. sizing and clearing
+    for gname in (p + 'LUWorkInit', p + 'SetRWork'):
+        g = prog.func(gname)
+        if g is None:
+            from ..run import AnalysisBroken
+            raise AnalysisBroken('%s not found' % gname)
+        chk.saw(unit=g.unit, func=g.unit + ':' + g.name)
+        n += 1
+        okg = False
+        for x in g.body.walk():
+            if x.k == 'Binary' and x.a['op'] == '*':
+                for a, b in ((x.c[0], x.c[1]), (x.c[1], x.c[0])):
+                    if ienv_value(g, a) == LDATMP:
+                        okg = True
+        if okg:
+            chk.ok(cid, '%s:tempv-extent' % gname, sample='(maxsuper + rowblk) * panel_size')
+        else:
+            V('tempv-extent', g.body, '%s must size / clear tempv with (max(sp_ienv(3), sp_ienv(7)) + sp_ienv(4)) entries per panel column, the layout ?panel_bmod uses' % gname, g)
+    # e. supernode width caps
+    for gname, k in ((p + 'column_dfs', 3), ('ilu_' + p + 'column_dfs', 7)):
+        g = prog.func(gname)
+        if g is None:
+            continue
+        n += 1
+        ms = next((kk for kk, v in g.locals.items() if v.a.get('name') == 'maxsuper'), None)
+        if ms is not None and ienv_value(g, _single_def(g, ms)) == ('ienv', k):
+            chk.ok(cid, '%s:supernode-width-cap' % gname, sample='maxsuper = sp_ienv(%d)' % k)
+        else:
+            V('supernode-width-cap', g.body, 'supernodes are capped at sp_ienv(%d) columns here; the scratch layout reserves max(sp_ienv(3), sp_ienv(7)) for a segment' % k, g)
+    return n
+
+
+# ---------------------------------------------------------------- leading dimension of supernodal storage
+LUSUP_NAMES = {'lusup', 'Lval'}
+STRIDE_NAMES = {'nsupr', 'ldm'}
+
+
+def _all_defs(f, vid):
+    ds = []
+    for x in f.body.walk():
+        if x.k == 'Var' and x.a.get('id') == vid and x.c:
+            ds.append(x.c[0])
+        elif x.k == 'Assign' and x.a['op'] == '=' and strip(x.c[0]).k == 'Ref' and strip(x.c[0]).a.get('id') == vid:
+            ds.append(x.c[1])
+    return ds
+
+
+def _is_stride(f, e, depth=0):
+    """the leading dimension of a supernode block: nsupr / ldm, a difference of two entries of xlsub[] (rows of the supernode) or of xlusup[]
+    (values per column), a local defined as one of these, or such a quantity plus/minus a correction (m + 1: step along the diagonal; m - r: the
+    leading dimension after r rows were dropped)"""
+    if depth > 4:
+        return False
+    e = strip(e)
+    if e.k == 'Ref':
+        if e.a.get('name') in STRIDE_NAMES:
+            return True
+        return bool(e.a.get('id')) and any(_is_stride(f, d, depth + 1) for d in _all_defs(f, e.a['id']))
+    if e.k == 'Binary' and e.a['op'] in ('-', '+'):
+        a, b = strip(e.c[0]), strip(e.c[1])
+
+        def tbl(x):
+            if x.k == 'Index':
+                b0 = strip(x.c[0])
+                return b0.a.get('name') in ('xlsub', 'rowind_colptr', 'xlusup', 'nzval_colptr')
+            if x.k == 'Ref' and x.a.get('id'):
+                return any(tbl(strip(d)) for d in _all_defs(f, x.a['id']))
+            return False
+        if e.a['op'] == '-' and tbl(a) and tbl(b):
+            return True
+        return _is_stride(f, a, depth + 1)      # stride +/- correction (the left operand carries the kind: luptr - nsupr is a position)
+    return False
+
+
+def lusup_stride_rule(chk, cid, prog, fnames, cfgname):
+    """The numerical values of a supernode are a dense column-major block whose leading dimension is the number of rows of the supernode (nsupr), not
+    its number of columns.  Any product that contributes to a position in that block - inside a subscript of lusup[] or in an assignment to a variable
+    that is used to subscript lusup[] - therefore has the leading dimension as one of its factors (columns * nsupr + rows)."""
+    n = 0
+    for fname in fnames:
+        f = prog.func(fname)
+        if f is None:
+            continue
+        arrs = set()
+        for x in f.body.walk():
+            if x.k == 'Ref' and x.a.get('name') in LUSUP_NAMES and x.a.get('id'):
+                arrs.add(x.a['id'])
+        if not arrs:
+            continue
+        # position variables: every variable named inside a subscript of the value array
+        pos = set()
+        subs = []
+        for x in f.body.walk():
+            if x.k == 'Index' and strip(x.c[0]).k == 'Ref' and strip(x.c[0]).a.get('id') in arrs:
+                subs.append(x.c[1])
+                for y in x.c[1].walk():
+                    if y.k == 'Ref' and y.a.get('id') and y.a['id'] in f.locals and not _is_stride(f, y):
+                        pos.add(y.a['id'])
+        exprs = list(subs)
+        for x in f.body.walk():
+            if x.k == 'Assign' and x.a['op'] in ('=', '+=', '-=') and strip(x.c[0]).k == 'Ref' and strip(x.c[0]).a.get('id') in pos:
+                exprs.append(x.c[1])
+        seen = set()
+        for e in exprs:
+            for y in e.walk():
+                if y.k == 'Binary' and y.a['op'] == '*' and id(y) not in seen:
+                    # only the outermost product of a chain
+                    fac = []
+
+                    def flat(z):
+                        z = strip(z)
+                        if z.k == 'Binary' and z.a['op'] == '*':
+                            seen.add(id(z))
+                            flat(z.c[0]); flat(z.c[1])
+                        else:
+                            fac.append(z)
+                    flat(y)
+                    if any(z.k == 'Sizeof' for z in fac):
+                        continue
+                    n += 1
+                    chk.saw(unit=f.unit, func=f.unit + ':' + f.name)
+                    inst = '%s:column-offset-uses-leading-dimension:%s' % (f.name, pretty(y)[:30])
+                    if any(_is_stride(f, z) for z in fac):
+                        chk.ok(cid, inst)
+                    else:
+                        chk.violate(cid, inst, loc(f, y), f.name,
+                                    '`%s` contributes to a position in the supernodal value block but none of its factors is the leading dimension of the '
+                                    'block (the row count of the supernode): stepping over columns with any other stride addresses the wrong entries as soon as '
+                                    'the supernode is not square' % pretty(y)[:50], cfgname=cfgname)
+    return n
+
+
+def run_factor(chk, cid, prog, cfgname):
+    """rules on the numerical factorization kernels (the updates that produce L and U)"""
+    chk.clause(cid + '.segsze', '2-D panel update: parked vectors touched for one set of segment sizes')
+    chk.clause(cid + '.layout', 'tempv layout agreed between ?LUWorkInit, ?SetRWork and ?panel_bmod')
+    chk.clause(cid + '.stride', 'column offsets into the supernodal value block use its leading dimension')
+    n = 0
+    for p in 'sdcz':
+        n += segsze_guard_rule(chk, cid + '.segsze', prog, p + 'panel_bmod', cfgname)
+        n += tempv_layout_rule(chk, cid + '.layout', prog, p, cfgname)
+    fs = [f.name for f in prog.all_funcs() if f.unit.startswith('SRC/')]
+    ns = lusup_stride_rule(chk, cid + '.stride', prog, fs, cfgname)
+    if ns < 120:
+        from ..run import AnalysisBroken
+        raise AnalysisBroken('%s: %d products in supernodal positions found, floor 120' % (cid, ns))
+    return n + ns
